@@ -296,7 +296,7 @@ def set_slot(node, slot, lex, tns):
             c._needs_text = True
 
 @st.composite
-def gen_case(draw, ext=False, big=False):
+def gen_case(draw, ext=False, big=False, propagate=False):
     """-> dict(tns, T, ics, style, root Node, plan labels)"""
     tns = draw(st.sampled_from(['', TNS]))
     types = CORE_TYPES + (EXT_TYPES if ext else [])
@@ -324,7 +324,7 @@ def gen_case(draw, ext=False, big=False):
         rsel = draw(st.sampled_from(['f'] + (['.//f'] if ext else [])))
         # key and keyref live on the same scope element: keyrefs resolved through tables propagated from descendant scopes
         # (3.11.4 clause 4.3 / 3.11.5) are outside the asserted domain, see the report (candidate finding, not triaged)
-        ron = on
+        ron = on if not propagate or on == 'r' or draw(st.booleans()) else 'r'
         ics.append(IC('keyref', 'R1', [sel_path(rsel, tns)], [[field_path(f, tns)] for f in fields], refer='K1', on=ron))
         labels += ['keyref', 'refsel:' + rsel, 'refon:' + ron]
         if ron != on: labels.append('propagated-table')
